@@ -92,7 +92,7 @@ def alpha(v, ctx, out, parent_type=None, field=None):
         t = "OptCall"
     atoms = []
     kids = []
-    if t == "CallExpression":
+    if t in ("CallExpression", "BlockStatement"):
         sp = v.get("span") or {}
         atoms.append("syn" if sp.get("start") == 0 and sp.get("end") == 0 else "usr")
     for k, x in v.items():
